@@ -76,7 +76,7 @@ def level_lengths(n, L, mode, J):
 
 def size_cond(lens_in, L, mode):
     """coarse size class used in finding keys"""
-    if mode == 'periodization':
+    if mode in ('periodization', 'per'):
         return 'Ne<L' if any((n + n % 2) < L for n in lens_in) else 'Ne>=L'
     return 'N<L' if any(n < L for n in lens_in) else 'N>=L'
 
@@ -209,7 +209,7 @@ def w_fwd2d(S, item):
     o = S.run(S.method(inst, 'forward'), x)
     lh_ = level_lengths(H, Lc, mode, J)
     lw_ = level_lengths(W, Lr, mode, J)
-    if mode == 'periodization':
+    if mode in ('periodization', 'per'):
         cond = 'Ne<L' if 'Ne<L' in (size_cond(lh_[:-1], Lc, mode), size_cond(lw_[:-1], Lr, mode)) else 'Ne>=L'
     else:
         cond = 'N<L' if 'N<L' in (size_cond(lh_[:-1], Lc, mode), size_cond(lw_[:-1], Lr, mode)) else 'N>=L'
@@ -389,7 +389,7 @@ def w_inv2d(S, item):
     lh_ = level_lengths(H, Lc, mode, J)
     lw_ = level_lengths(W, Lr, mode, J)
     conds = (size_cond(lh_[:-1], Lc, mode), size_cond(lw_[:-1], Lr, mode))
-    cond = ('Ne<L' if 'Ne<L' in conds else 'Ne>=L') if mode == 'periodization' else ('N<L' if 'N<L' in conds else 'N>=L')
+    cond = ('Ne<L' if 'Ne<L' in conds else 'Ne>=L') if mode in ('periodization', 'per') else ('N<L' if 'N<L' in conds else 'N>=L')
     if none_mask and cond == 'Ne>=L':
         cond += ',odd-level' if any(n % 2 for n in lh_[:-1] + lw_[:-1]) else ',even-levels'
     wave, roles = wave_spec_rec(kind, Lc, Lr)
@@ -561,7 +561,7 @@ def w_compose(S, item):
         lh_ = level_lengths(H, L, mode, J)
         lw_ = level_lengths(W, L, mode, J)
         conds = (size_cond(lh_[:-1], L, mode), size_cond(lw_[:-1], L, mode))
-        cond = ('Ne<L' if 'Ne<L' in conds else 'Ne>=L') if mode == 'periodization' else ('N<L' if 'N<L' in conds else 'N>=L')
+        cond = ('Ne<L' if 'Ne<L' in conds else 'Ne>=L') if mode in ('periodization', 'per') else ('N<L' if 'N<L' in conds else 'N>=L')
         in_sizes = [H, W]
     construct = 'DWT%sInverse(DWT%sForward(x))' % (('1D', '1D') if dim == 1 else ('', ''))
     o = S.run(S.method(f, 'forward'), x)
@@ -779,6 +779,13 @@ def w_adj(S, item):
     fn, mode, L, size, mask = item
     res = {'cmp': 1, 'diff': 0, 'findings': [], 'sample': None}
     S.libs.apply_log = []
+    per_axis = fn.endswith('/4')          # separate column / row filters (4-tuple), row filters two taps longer
+    if per_axis:
+        fn = fn[:-2]
+        wave_a = tuple(user_filts(4, L, L + 2))
+        wave_s = tuple(user_filts(4, L, L + 2))
+    else:
+        wave_a = wave_s = wname(L)
     if fn == 'AFB1D':
         inst = S.construct(T1, 'DWT1DForward', J=1, wave=wname(L), mode=mode)
         b, x = base_tensor('x', 1, 2, [size], requires_grad=bool(mask & 1))
@@ -786,7 +793,7 @@ def w_adj(S, item):
         slots = [0]
         n_eff = size
     elif fn == 'AFB2D':
-        inst = S.construct(T2, 'DWTForward', J=1, wave=wname(L), mode=mode)
+        inst = S.construct(T2, 'DWTForward', J=1, wave=wave_a, mode=mode)
         b, x = base_tensor('x', 1, 2, list(size), requires_grad=bool(mask & 1))
         args = (x,)
         slots = [0]
@@ -799,7 +806,7 @@ def w_adj(S, item):
         slots = [0, 1]
         n_eff = 2 * size
     elif fn == 'SFB2D':
-        inst = S.construct(T2, 'DWTInverse', wave=wname(L), mode=mode)
+        inst = S.construct(T2, 'DWTInverse', wave=wave_s, mode=mode)
         bl, yl = base_tensor('yl', 1, 2, list(size), requires_grad=bool(mask & 1))
         bh, yh = base_tensor('yh', 1, 2, list(size), extra_e=(3,), requires_grad=bool(mask & 2))
         args = ((yl, [yh]),)
@@ -816,6 +823,8 @@ def w_adj(S, item):
     else:
         cond = 'any'
     construct = '%s.backward' % fn
+    if per_axis:
+        L = L + 2
     o = S.run(S.method(inst, 'forward'), *args)
     if o.kind != 'ok':
         if o.kind == 'raises' and mode == 'reflect' and o.exc.name == 'RuntimeError':
